@@ -153,6 +153,16 @@ CLAIMED = {
         "design_ref": "DESIGN.md §8 C18",
         "technique": "Lean 4 theorems (LRU invariant, free-monad lookup programs, induction over histories) + T0 mutable-state inventory obligation + LRU correspondence + fresh-vs-history differential search",
     },
+    "C20": {
+        "text": "Proof (Lean 4): (i) for every session id the cache entry's file name has no '/', is not '.'/'..', ends in 'e' - so it is inside the cache directory and is neither the MCP list (mcp.list) nor any temporary '….tmp.<pid>' - and truthy "
+        "non-string ids never reach the file system (cache_confined, entry_is_not_a_tmp, cachePath_cases, nonstring_id_no_cache); (ii) over a model of main/build_statusline in which every data source and the whole cache directory are arbitrary oracles, "
+        "the output is non-empty and is one line whenever the fragments are, whatever the cache holds (main_nonempty, main_single_line), and file-sourced text is collapsed to one line (collapse_single_line, via Python's str.split on T0's Unicode table); "
+        "(iii) over a small-step model of open(tmp.PID,'w'); write*; rename(tmp.PID, path) with arbitrary interleaving of any number of invocations and a kill between any two system calls, the entry is always its previous content or the complete output of one "
+        "invocation (untorn, invariant by induction over schedules, assuming distinct temporary names), and the assumption is necessary (shared_tmp_tears). T0: names and protocol shape (t0_statusline). That no exception escapes main for any JSON shape and file state "
+        "is established by the subprocess search (exit 0, no traceback, tree diff), not by a theorem.",
+        "design_ref": "DESIGN.md §8 C20",
+        "technique": "Lean 4 theorems (name confinement, oracle-parametrised output model, interleaving invariant with crash points) + T0 protocol-shape obligation + name/collapse correspondence + subprocess search over stdin x file states + forced schedules and concurrent runs",
+    },
 }
 
 PENDING_REASON = "check not built yet in this round (DESIGN.md §10 build order); no technique other than Lean proof + correspondence is substituted"
